@@ -28,4 +28,9 @@ run H07 C07 C08 C09 C01
 run H08 C20
 run H09 C16 C17 C10 C11 C19
 run H10 C14 C04 C03 C06
+run H11 C08 C07 C11
+run H12 C08 C11
+run H13 C08
+run H14 C14 C02 C06 C11
+run H15 C08 C07 C09 C16 C11 C01
 cat $OUT
